@@ -250,6 +250,10 @@ PANIC_ONLY = ["Field11", "Field11R", "Field11S", "Field21C", "Field21D", "Field2
               "Field32D", "Field34F", "Field61"]
 
 
+# types that only get the non-ASCII panic query (their documented format is that of the F variant / not single-line)
+BYTES_ONLY = ["Field60M", "Field62M"]
+
+
 def check_type(prog, ty, tag, known, timeout_ms=30000):
     from common import replay_batch
     sd = prog.structs.get(ty)
@@ -354,6 +358,65 @@ def check_type(prog, ty, tag, known, timeout_ms=30000):
     return res
 
 
+def check_type_bytes(prog, ty, tag, timeout_ms=30000, maxlen=24):
+    """non-ASCII input: one z3 character per byte of a valid UTF-8 text; every slice must be in range AND on a character boundary.
+    Operations that count characters (chars().nth / count) see bytes in this mode, so a model is only reported when the real parser
+    panics on the decoded text."""
+    from common import replay_batch
+    base = {"type": ty, "format": None}
+    t0 = time.time()
+    try:
+        m = FmtMachine(prog, 1)
+        m.obligations = []
+        m.byte_mode = True
+        parse = prog.fns[(ty, "parse", True)][0]
+        sv = z3.String("in_bytes")
+        m.constraints += [z3.Length(sv) <= maxlen, z3.InRe(sv, structsym.utf8_regex())]
+        r1, _ = m.call_fn(parse, [StrZ(sv)], True, self_ty=ty)
+    except Unsupported as e:
+        return [dict(base, query="no panic in parse on non-ASCII text", verdict="not-encoded", detail=str(e)[:200])]
+    except Exception:
+        return [dict(base, query="no panic in parse on non-ASCII text", verdict="error", detail=traceback.format_exc()[-600:])]
+    obs = [(g, c, w) for g, c, w in m.obligations if "boundary" in w]
+    name = "no panic in parse on UTF-8 text of at most %d bytes (%d character-boundary obligations)" % (maxlen, len(obs))
+    if not obs:
+        return [dict(base, query=name, verdict="unsat", time_s=0)]
+    res = []
+    for k, (g, c, w) in enumerate(obs):
+        s = z3.Solver()
+        s.set("timeout", timeout_ms)
+        s.add(*m.constraints)
+        s.add(B(And(g, Not(c))))
+        tried = 0
+        verdict = None
+        while True:
+            r = s.check()
+            if r != z3.sat:
+                verdict = str(r) if tried == 0 or r != z3.unsat else "unsat"
+                break
+            raw = structsym._zstr(s.model().eval(sv, model_completion=True))
+            try:
+                text = bytes(ord(ch) for ch in raw).decode("utf-8")
+            except Exception:
+                text = None
+            real = replay_batch([{"op": "field", "type": ty, "content": text}], "dev")[0] if text is not None else {}
+            if real.get("panic"):
+                res.append(dict(base, query=name, verdict="sat", kf="panic", time_s=round(time.time() - t0, 2),
+                                witness={"type": ty, "content": text, "real": {"panic": real.get("panic")},
+                                         "why": "%s::parse(%r) panics: %s" % (ty, text, str(real.get("panic"))[:200])}))
+                return res
+            tried += 1
+            if tried >= 6:
+                # byte-level artefact (character-counting operations): not a panic of the real parser
+                verdict = "unsat"
+                break
+            s.add(sv != z3.StringVal(raw))
+        if verdict != "unsat":
+            res.append(dict(base, query=name + ": obligation %d" % (k + 1), verdict=verdict, kf="panic", time_s=round(time.time() - t0, 2)))
+            return res
+    return [dict(base, query=name, verdict="unsat", time_s=round(time.time() - t0, 2))]
+
+
 def check_amount(prog, timeout_ms=30000):
     """C06: every text parse_amount accepts is a decimal written with digits and a single separator"""
     from common import replay_batch
@@ -396,7 +459,11 @@ def _worker(args):
     ty, tag, known = args
     try:
         prog = Program(layout_mod.extract_ast())
-        return check_type(prog, ty, tag, known)
+        out = check_type(prog, ty, tag, known) if ty not in BYTES_ONLY else []
+        for r in check_type_bytes(prog, ty, tag):
+            r["type"] = ty
+            out.append(r)
+        return out
     except Exception:
         return [{"type": ty, "query": "format", "verdict": "error", "detail": traceback.format_exc()[-1200:]}]
 
@@ -404,7 +471,7 @@ def _worker(args):
 def run(jobs=14, only=None, known=None):
     prog = Program(layout_mod.extract_ast())
     tags, _bad = layout_mod.field_tags(prog)
-    types = sorted(t for t in tags if (t in only if only else t in DECIDED + PANIC_ONLY) and t in prog.structs)
+    types = sorted(t for t in tags if (t in only if only else t in DECIDED + PANIC_ONLY + BYTES_ONLY) and t in prog.structs)
     with mp.Pool(min(jobs, max(1, len(types)))) as pool:
         outs = pool.map(_worker, [(t, tags[t], known or []) for t in types], chunksize=1)
     res = [r for o in outs for r in o]
